@@ -349,7 +349,10 @@ def run_repro(src: str):
         p = subprocess.run([BOUNDED_PY, "-c", src], env=env, capture_output=True, text=True, timeout=600)
     except subprocess.TimeoutExpired:
         return False, "timeout"
-    return p.returncode != 0, (p.stdout + p.stderr)
+    out = p.stdout + p.stderr
+    if p.returncode != 0 and any(k in out for k in ("SyntaxError", "ModuleNotFoundError", "ImportError: cannot import")):
+        return False, "the reproduction script itself is broken (not counted as a witness):\n" + out[-800:]
+    return p.returncode != 0, out
 
 
 def _z3v():
